@@ -262,14 +262,7 @@ MainLoop:
 			// (because it might send too late to keep the session up) and set up a new
 			// send timer based on the remote's preferences.
 			oldState := s.getLocalState()
-			e := event(s.remoteState)
-			if s.remoteState == stateAdminDown {
-				// RFC 5880 section 6.8.6: a received AdminDown takes the local session
-				// Down. It is the remote end that is administratively down, the local
-				// session must not enter the AdminDown state (which it could not leave).
-				e = eventTimer
-			}
-			s.transition(ctx, e)
+			s.transition(ctx, event(s.remoteState))
 			if oldState == stateDown && s.getLocalState() != stateDown {
 				s.desiredMinTXInterval = s.DesiredMinTxInterval
 				// Cancel any pending send to accelerate the timer.
